@@ -56,6 +56,9 @@ class Sim:
         self.seq = 0
         self.paths = cfg.get('paths') or PATHS
         self.pw_prefix = cfg.get('pw_prefix', 'pw').encode()
+        if cfg.get('long_passwords'):
+            # passwords that agree on their first 64 bytes (a KDF must still tell them apart, or refuse them)
+            self.pw_prefix = b'L' * 64 + self.pw_prefix
         self.printed = []             # stdout of init / add-key (what a user would see or save)
         self.plain = None             # C05: needle bookkeeping
         self._init_repo()
@@ -134,7 +137,15 @@ class Sim:
 
         async def go():
             return await init_repo.init(password=pw, settings=copy.deepcopy(self.cfg['settings']))
-        res, out = self.run(go())
+        try:
+            res, out = self.run(go())
+        except Exception:
+            if self.cfg.get('long_passwords'):
+                # e.g. the blake2b KDF refuses keys above 64 bytes: a rejected init is fine, the history stays empty
+                self.init_rejected = True
+                self.users.append(User(0, pw, None, 0, 'owner', None))
+                return
+            raise
         self.clients[1] = init_repo       # the object that ran init stays usable as an unlocked session of user 0
         self.client_user[1] = 0
         self.printed.append(out)
@@ -156,6 +167,8 @@ class Sim:
 
     # ------------------------------------------------------------------ ops
     def apply(self, op):
+        if getattr(self, 'init_rejected', False):
+            return None
         self.step += 1
         self.count('op:' + op['op'])
         try:
@@ -191,6 +204,9 @@ class Sim:
         try:
             res, out = self.run(go())
         except Exception as e:
+            if self.cfg.get('long_passwords'):
+                self.events.add('add-key-rejected')
+                return None
             return fail('add-key-error', f'add_key({kind}) raised {type(e).__name__}: {e}')
         self.printed.append(out)
         key = refimpl.dumps(res.new_key)
@@ -279,25 +295,26 @@ class Sim:
         return set(memo['locs'])
 
     @contextlib.contextmanager
-    def _failing_delete(self, nth):
-        """The nth backend delete call issued inside the block fails (every time it is tried)."""
+    def _failing_delete(self, nth, kinds=('delete',)):
+        """The nth backend call of one of `kinds` issued inside the block fails (every time it is tried)."""
         if not nth:
             yield
             return
+        kinds = tuple(kinds or ('delete',))
         state = {'n': 0, 'name': None}
 
         def pred(o, name):
-            if o != 'delete':
+            if o not in kinds:
                 return None
             if state['name'] is None:
                 state['n'] += 1
                 if state['n'] == nth:
-                    state['name'] = name
-            if name == state['name']:
-                return OSError(f'injected failure deleting {name}')
+                    state['name'] = (o, name)
+            if (o, name) == state['name']:
+                return OSError(f'injected failure of {o} {name}')
             return None
         self.store.fail_pred = pred
-        self.events.add('injected-delete-failure')
+        self.events.add('injected-failure:' + '+'.join(kinds))
         try:
             yield
         finally:
@@ -325,7 +342,7 @@ class Sim:
             await repo.delete_snapshots([v.name for v in victims], confirm=False)
         raised = None
         try:
-            with self._failing_delete(op.get('fail_delete')):
+            with self._failing_delete(op.get('fail_delete'), op.get('fail_kinds')):
                 self.run(go())
         except Exception as e:
             raised = e
@@ -373,7 +390,7 @@ class Sim:
             repo = await self.session(op.get('client', 0), u)
             await repo.clean()
         try:
-            with self._failing_delete(op.get('fail_delete')):
+            with self._failing_delete(op.get('fail_delete'), op.get('fail_kinds')):
                 self.run(go())
         except Exception as e:
             if not op.get('fail_delete'):
@@ -775,10 +792,11 @@ def make_machine(prop, tier, ctx, *, checks, encrypted=None, weights=None, extra
     add('delete', w['delete'], dict(u=small, p=st.lists(small, min_size=1, max_size=3), c=st.integers(0, 2)),
         lambda u, p, c: {'op': 'delete', 'user': u, 'picks': p, 'client': c})
     add('clean', w['clean'], dict(u=small, c=st.integers(0, 2)), lambda u, c: {'op': 'clean', 'user': u, 'client': c})
-    add('faulty_delete', w['faulty'], dict(u=small, p=st.lists(small, min_size=1, max_size=3), n=st.integers(1, 4)),
-        lambda u, p, n: {'op': 'delete', 'user': u, 'picks': p, 'client': 0, 'fail_delete': n})
-    add('faulty_clean', w['faulty'], dict(u=small, n=st.integers(1, 3)),
-        lambda u, n: {'op': 'clean', 'user': u, 'client': 0, 'fail_delete': n})
+    fk = st.sampled_from([['delete'], ['delete'], ['download'], ['download'], ['list_files'], ['exists', 'download', 'delete']])
+    add('faulty_delete', w['faulty'], dict(u=small, p=st.lists(small, min_size=1, max_size=3), n=st.integers(1, 4), k=fk),
+        lambda u, p, n, k: {'op': 'delete', 'user': u, 'picks': p, 'client': 0, 'fail_delete': n, 'fail_kinds': k})
+    add('faulty_clean', w['faulty'], dict(u=small, n=st.integers(1, 3), k=fk),
+        lambda u, n, k: {'op': 'clean', 'user': u, 'client': 0, 'fail_delete': n, 'fail_kinds': k})
     add('restore', w['restore'], dict(u=small, p=small, c=st.integers(0, 2)),
         lambda u, p, c: {'op': 'restore', 'user': u, 'pick': p, 'client': c})
     add('list', w['list'], dict(u=small, c=st.integers(0, 2)), lambda u, c: {'op': 'list', 'user': u, 'client': c})
